@@ -65,14 +65,19 @@ Proof.
   destruct Hin.
 Qed.
 
+Lemma ctor_plain_gen n args :
+  text_eqb n [ch_dot] = false -> all_dots_text n = false -> lookup_syntax n repr_syntax = None ->
+  expr_plain (MSym n :: args) = true.
+Proof.
+  intros H1 H2 H3. unfold expr_plain, expr_dotted, expr_sugar. cbn [nth sym_is sym_text is_sym].
+  rewrite H1, H2, H3, andb_false_r, orb_false_r, andb_false_r. cbn [negb andb].
+  destruct (Nat.eqb (length (MSym n :: args)) 2 && true); reflexivity.
+Qed.
+
 Lemma ctor_plain n args : In n value_names -> expr_plain (MSym n :: args) = true.
 Proof.
-  intros Hin. unfold expr_plain, expr_dotted, expr_sugar. cbn [nth length].
-  simpl in Hin.
-  repeat (destruct Hin as [<-|Hin];
-          [cbn [sym_is sym_text is_sym]; rewrite andb_false_r, orb_false_r; cbn [negb andb];
-           match goal with |- context [text_eqb ?a ?b] => change (text_eqb a b) with false end;
-           rewrite andb_false_r; cbn [negb andb]; destruct (Nat.eqb (length args) 1); reflexivity|]).
+  intros Hin. simpl in Hin.
+  repeat (destruct Hin as [<-|Hin]; [apply ctor_plain_gen; reflexivity|]).
   destruct Hin.
 Qed.
 
@@ -81,8 +86,8 @@ Proof.
   revert l. fix IH 1. intros [|a [|b l]]; [reflexivity|reflexivity|]. cbn [map pairs_of fst snd]. rewrite IH. reflexivity.
 Qed.
 
-Lemma map_vrepr vs : Forall (fun v => wfv v -> vrepr W v = mrepr W (vmodel W v)) vs -> Forall wfv vs ->
-  map (mrepr W) (map (vmodel W) vs) = map (vrepr W) vs.
+Lemma map_vrepr vs : Forall (fun v => wfv v -> vrepr W v = mrepr W (vmodel v)) vs -> Forall wfv vs ->
+  map (mrepr W) (map (vmodel) vs) = map (vrepr W) vs.
 Proof.
   intros H1 H2. induction H2 as [|v vs Hv _ IH]; [reflexivity|]. inversion H1; subst. cbn [map].
   rewrite IH by assumption. f_equal. symmetry. auto.
@@ -113,6 +118,334 @@ Proof.
   cbn [dict_items pairs_of map]. rewrite !intersperse_flat. cbn [flat_map].
   rewrite (dict_items_later l 2 Hl eq_refl ltac:(discriminate)).
   unfold pair_text. cbn [negb andb Nat.eqb Nat.even fst snd app]. rewrite <- !app_assoc. reflexivity.
+Qed.
+
+(* ---------------------------------------------------------------- printed value = printed model *)
+Ltac in_names := simpl; repeat (first [left; reflexivity | right]).
+
+Lemma mrepr_call n args : In n value_names ->
+  mrepr W (call n args) = [c_lp] ++ cat (n :: map (mrepr W) args) ++ [c_rp].
+Proof.
+  intros Hin. unfold call. cbn [mrepr node_repr map]. apply expr_plain_repr. apply ctor_plain; exact Hin.
+Qed.
+
+Lemma cat2 a b : cat [a; b] = a ++ [ch_space] ++ b. Proof. reflexivity. Qed.
+Lemma cat3 a b c : cat [a; b; c] = a ++ [ch_space] ++ b ++ [ch_space] ++ c. Proof. reflexivity. Qed.
+Lemma cat4 a b c d : cat [a; b; c; d] = a ++ [ch_space] ++ b ++ [ch_space] ++ c ++ [ch_space] ++ d. Proof. reflexivity. Qed.
+Lemma cat_cons a l : l <> [] -> cat (a :: l) = a ++ [ch_space] ++ cat l.
+Proof. destruct l; [congruence|reflexivity]. Qed.
+
+Ltac norm_app := repeat (cbn [app]; rewrite <- app_assoc); cbn [app]; try reflexivity.
+
+Lemma format_OrderedDict x : format fmt_OrderedDict [x] = [c_lp] ++ n_OrderedDict ++ [ch_space] ++ x ++ [c_rp].
+Proof. reflexivity. Qed.
+Lemma format_Counter x : format fmt_Counter [x] = [c_lp] ++ n_Counter ++ [ch_space] ++ x ++ [c_rp].
+Proof. reflexivity. Qed.
+Lemma format_defaultdict x y : format fmt_defaultdict [x; y] = [c_lp] ++ n_defaultdict ++ [ch_space] ++ x ++ [ch_space] ++ y ++ [c_rp].
+Proof. reflexivity. Qed.
+Lemma format_ChainMap x : format fmt_ChainMap [x] = [c_lp] ++ n_ChainMap ++ [ch_space] ++ x ++ [c_rp].
+Proof. reflexivity. Qed.
+Lemma fill_vlist body : fill_first fmt_vlist body = [c_lb] ++ body ++ [c_rb].
+Proof. reflexivity. Qed.
+
+Lemma map_pair_text_tuples (ms : list model) :
+  map (mrepr W) (map (fun kv => MNode KTuple [fst kv; snd kv]) (pairs_of ms))
+  = map (fun kv => vtuple_repr [fst kv; snd kv]) (pairs_of (map (mrepr W) ms)).
+Proof.
+  rewrite pairs_of_map, !map_map. apply map_ext. intros [k v]. reflexivity.
+Qed.
+
+Theorem vrepr_vmodel : forall v, wfv v -> vrepr W v = mrepr W (vmodel v).
+Proof.
+  apply (value_ind' (fun v => wfv v -> vrepr W v = mrepr W (vmodel v))); [intros v|intros k vs IH].
+  { destruct v as [|b|z|f|a b|s|b|b|s|n d|a b c|k vs]; try exact I; intros Hwf; try reflexivity.
+    - destruct b; reflexivity.
+    - cbn [vrepr atom_repr vmodel]. rewrite mrepr_call by in_names. cbn [map mrepr]. rewrite cat3. norm_app.
+    - cbn [vrepr atom_repr vmodel]. unfold range_like.
+      destruct (Z.eqb c 1); [destruct (Z.eqb a 0)|]; rewrite mrepr_call by in_names; reflexivity. }
+  intros Hwf. inversion Hwf as [| | | | | | | | | | |k' vs' Hshape HF]; subst.
+  pose proof (map_vrepr vs IH HF) as Hmap.
+  cbn [vrepr]. destruct k as [| | | | | | | |f| |]; cbn [vnode_repr vmodel].
+  - (* list *) cbn [mrepr node_repr]. rewrite Hmap. reflexivity.
+  - (* tuple *) cbn [mrepr node_repr]. rewrite Hmap. reflexivity.
+  - (* set *) cbn [mrepr node_repr]. rewrite Hmap. reflexivity.
+  - (* frozenset *) rewrite mrepr_call by in_names. cbn [map mrepr node_repr]. rewrite Hmap, cat2, fill_set.
+    norm_app.
+  - (* deque *) rewrite mrepr_call by in_names. cbn [map mrepr node_repr]. rewrite Hmap, cat2, fill_list. norm_app.
+  - (* dict *) destruct Hshape as [He _]. cbn [mrepr node_repr]. rewrite Hmap. unfold vdict_repr.
+    rewrite dict_body_pairs by (rewrite map_length; exact He). reflexivity.
+  - (* OrderedDict *) rewrite mrepr_call by in_names. cbn [map mrepr node_repr].
+    rewrite map_pair_text_tuples, Hmap, cat2, fill_list. unfold vlist_repr. rewrite format_OrderedDict, fill_vlist. norm_app.
+  - (* Counter *) destruct Hshape as [He _]. rewrite mrepr_call by in_names. cbn [map mrepr node_repr].
+    rewrite Hmap, cat2. unfold vdict_repr. rewrite dict_body_pairs by (rewrite map_length; exact He).
+    rewrite format_Counter. norm_app.
+  - (* defaultdict *) destruct f as [f|]; [destruct Hshape|]. destruct Hshape as [He _].
+    rewrite mrepr_call by in_names. cbn [map mrepr node_repr factory_repr].
+    rewrite Hmap, cat3. unfold vdict_repr. rewrite dict_body_pairs by (rewrite map_length; exact He).
+    rewrite format_defaultdict. norm_app.
+  - (* ChainMap *) destruct Hshape as [Hne _]. rewrite mrepr_call by in_names. rewrite Hmap.
+    rewrite cat_cons by (destruct vs; [congruence|discriminate]). rewrite format_ChainMap. norm_app.
+  - (* slice *) destruct Hshape as [Hlen _].
+    destruct vs as [|a [|b [|c [|x vs]]]]; try discriminate. cbn [map nth].
+    unfold range_like. cbn [map] in Hmap. injection Hmap as E1 E2 E3.
+    destruct (is_none c); [destruct (is_none a)|]; rewrite mrepr_call by in_names; cbn [map nth];
+      rewrite ?E1, ?E2, ?E3; reflexivity.
+Qed.
+
+(* ---------------------------------------------------------------- the denoted model is in the readable fragment *)
+Lemma Forall_pairs {A} (P : A -> Prop) : forall l, Forall P l -> Forall (fun kv => P (fst kv) /\ P (snd kv)) (pairs_of l).
+Proof.
+  fix IH 1. intros [|a [|b l]] H; [constructor|constructor|]. inversion H as [|? ? Ha H1]; subst.
+  inversion H1 as [|? ? Hb H2]; subst. cbn [pairs_of]. constructor; [split; assumption|apply IH; exact H2].
+Qed.
+
+Lemma ok_call n args : In n value_names -> Forall (ok W) args -> ok W (call n args).
+Proof.
+  intros Hin HF. unfold call. apply OkExpr; [apply ctor_plain; exact Hin|].
+  constructor; [apply OkSym, name_sym_ok; exact Hin|exact HF].
+Qed.
+
+Theorem vmodel_ok : forall v, wfv v -> ok W (vmodel v).
+Proof.
+  apply (value_ind' (fun v => wfv v -> ok W (vmodel v))); [intros v|intros k vs IH].
+  { destruct v as [|b|z|f|a b|s|b|b|s|n d|a b c|k vs]; try exact I; intros Hwf; inversion Hwf; subst; cbn [vmodel].
+    - apply OkSym, name_sym_ok. in_names.
+    - destruct b; apply OkSym, name_sym_ok; in_names.
+    - constructor.
+    - constructor.
+    - constructor.
+    - constructor; assumption.
+    - constructor; assumption.
+    - apply ok_call; [in_names|]. repeat constructor; assumption.
+    - constructor; assumption.
+    - apply ok_call; [in_names|]. repeat constructor.
+    - apply ok_call; [in_names|]. destruct (Z.eqb c 1); [destruct (Z.eqb a 0)|]; repeat constructor. }
+  intros Hwf. inversion Hwf as [| | | | | | | | | | |k' vs' Hshape HF]; subst.
+  assert (Hms : Forall (ok W) (map vmodel vs)).
+  { clear Hshape Hwf. induction HF as [|v vs Hv _ IHF]; [constructor|]. inversion IH; subst. constructor; auto. }
+  cbn [vmodel]. destruct k as [| | | | | | | |f| |].
+  - constructor; exact Hms.
+  - constructor; exact Hms.
+  - constructor; exact Hms.
+  - apply ok_call; [in_names|]. repeat constructor. exact Hms.
+  - apply ok_call; [in_names|]. repeat constructor. exact Hms.
+  - constructor; exact Hms.
+  - apply ok_call; [in_names|]. constructor; [|constructor]. apply OkList.
+    apply Forall_pairs in Hms. induction Hms as [|[a b] l [Ha Hb] _ IHl]; [constructor|].
+    constructor; [|exact IHl]. apply OkTuple. repeat constructor; assumption.
+  - apply ok_call; [in_names|]. repeat constructor. exact Hms.
+  - destruct f as [f|]; [destruct Hshape|]. apply ok_call; [in_names|].
+    constructor; [apply OkSym, name_sym_ok; in_names|]. repeat constructor. exact Hms.
+  - apply ok_call; [in_names|]. exact Hms.
+  - destruct Hshape as [Hlen _]. destruct vs as [|a [|b [|c [|x vs]]]]; try discriminate.
+    cbn [map nth] in *. inversion Hms as [|? ? Ha H1]; subst. inversion H1 as [|? ? Hb H2]; subst.
+    inversion H2 as [|? ? Hc _]; subst.
+    apply ok_call; [in_names|]. destruct (is_none c); [destruct (is_none a)|]; repeat constructor; assumption.
+Qed.
+
+(* ---------------------------------------------------------------- evaluation gives the value back *)
+Notation ev := (eval key_eq).
+
+Lemma keys_distinct_front acc v vs : keys_distinct (acc ++ v :: vs) ->
+  Forall (fun x => key_eq x v = false) acc /\ keys_distinct ((acc ++ [v]) ++ vs).
+Proof.
+  rewrite <- app_assoc. cbn [app]. intros H. split; [|exact H].
+  induction acc as [|x acc IH]; [constructor|]. cbn [app keys_distinct] in H. destruct H as [Hx H].
+  constructor; [|apply IH; exact H]. rewrite Forall_forall in Hx. apply Hx. apply in_or_app. right. left. reflexivity.
+Qed.
+
+Lemma set_add_new acc v : Forall (fun x => key_eq x v = false) acc -> set_add key_eq acc v = acc ++ [v].
+Proof.
+  induction 1 as [|x acc Hx _ IH]; [reflexivity|]. cbn [set_add app]. rewrite Hx, IH. reflexivity.
+Qed.
+
+Lemma set_of_distinct_gen vs : forall acc, keys_distinct (acc ++ vs) -> fold_left (set_add key_eq) vs acc = acc ++ vs.
+Proof.
+  induction vs as [|v vs IH]; intros acc H; [rewrite app_nil_r; reflexivity|].
+  destruct (keys_distinct_front acc v vs H) as [Hf Hd]. cbn [fold_left]. rewrite set_add_new by exact Hf.
+  rewrite IH by exact Hd. rewrite <- app_assoc. reflexivity.
+Qed.
+
+Lemma set_of_distinct vs : keys_distinct vs -> set_of key_eq vs = vs.
+Proof. intros H. unfold set_of. apply (set_of_distinct_gen vs [] H). Qed.
+
+Definition flat (kvs : list (value * value)) : list value := flat_map (fun kv => [fst kv; snd kv]) kvs.
+
+Lemma flat_pairs : forall vs, Nat.even (length vs) = true -> flat (pairs_of vs) = vs.
+Proof.
+  fix IH 1. intros [|a [|b l]] H; [reflexivity|discriminate|]. cbn [pairs_of flat flat_map fst snd app].
+  f_equal. f_equal. apply IH. exact H.
+Qed.
+
+Lemma evens_flat kvs : evens (flat kvs) = map fst kvs.
+Proof. induction kvs as [|[k v] l IH]; [reflexivity|]. cbn [flat flat_map fst snd app evens map]. f_equal. exact IH. Qed.
+
+Lemma evens_app : forall (a b : list value), Nat.even (length a) = true -> evens (a ++ b) = evens a ++ evens b.
+Proof.
+  fix IH 1. intros [|x [|y l]] b H; [reflexivity|discriminate|]. cbn [app evens]. f_equal. apply IH. exact H.
+Qed.
+
+Lemma dict_put_new : forall acc k v, Nat.even (length acc) = true -> Forall (fun x => key_eq x k = false) (evens acc) ->
+  dict_put key_eq acc k v = acc ++ [k; v].
+Proof.
+  fix IH 1. intros [|x [|y l]] k v He Hf; [reflexivity|discriminate|].
+  cbn [evens] in Hf. inversion Hf as [|? ? Hx Hf']; subst. cbn [dict_put app]. rewrite Hx. f_equal. f_equal.
+  apply IH; assumption.
+Qed.
+
+Lemma dict_of_distinct_gen kvs : forall acc, Nat.even (length acc) = true -> keys_distinct (evens acc ++ map fst kvs) ->
+  fold_left (fun a kv => dict_put key_eq a (fst kv) (snd kv)) kvs acc = acc ++ flat kvs.
+Proof.
+  induction kvs as [|[k v] kvs IH]; intros acc He H; [rewrite app_nil_r; reflexivity|].
+  cbn [map fst] in H. destruct (keys_distinct_front (evens acc) k (map fst kvs) H) as [Hf Hd].
+  cbn [fold_left fst snd]. rewrite dict_put_new by assumption.
+  rewrite IH.
+  - rewrite <- app_assoc. reflexivity.
+  - rewrite app_length. cbn [length]. rewrite Nat.add_comm. exact He.
+  - rewrite evens_app by exact He. exact Hd.
+Qed.
+
+Lemma dict_of_pairs vs : Nat.even (length vs) = true -> keys_distinct (evens vs) -> dict_of key_eq (pairs_of vs) = vs.
+Proof.
+  intros He Hd. unfold dict_of. rewrite (dict_of_distinct_gen (pairs_of vs) [] eq_refl).
+  - apply flat_pairs; exact He.
+  - cbn [evens app]. rewrite <- evens_flat, flat_pairs by exact He. exact Hd.
+Qed.
+
+Lemma all_some_map vs : Forall (fun v => wfv v -> ev (vmodel v) = Some v) vs -> Forall wfv vs ->
+  all_some_v (map ev (map vmodel vs)) = Some vs.
+Proof.
+  intros H1 H2. induction H2 as [|v vs Hv _ IH]; [reflexivity|]. inversion H1; subst. cbn [map all_some_v].
+  rewrite (H2 Hv), IH by assumption. reflexivity.
+Qed.
+
+Lemma vmodel_not_kw v : is_vkw v = false -> match vmodel v with MKw _ => false | _ => true end = true.
+Proof.
+  destruct v as [|b|z|f|a b|s|b|b|s|n d|a b c|k vs]; try reflexivity; try discriminate.
+  - destruct b; reflexivity.
+  - intros _. cbn [vmodel]. destruct k; reflexivity.
+Qed.
+
+Definition is_mkw (a : model) : bool := match a with MKw _ => true | _ => false end.
+
+Lemma ev_call n args :
+  ev (call n args) = if existsb is_mkw args then None
+                     else match all_some_v (map ev args) with Some vs => apply_ctor key_eq n vs | None => None end.
+Proof. reflexivity. Qed.
+
+Lemma ac_Fraction n d : apply_ctor key_eq k_Fraction [VInt n; VInt d] =
+  if Z.eqb d 0 then None
+  else Some (VFraction ((if Z.ltb d 0 then (-1)%Z else 1%Z) * (n / Z.gcd n d)) ((if Z.ltb d 0 then (-1)%Z else 1%Z) * (d / Z.gcd n d))).
+Proof. reflexivity. Qed.
+Lemma ac_range1 b : apply_ctor key_eq k_range [VInt b] = Some (VRange 0 b 1). Proof. reflexivity. Qed.
+Lemma ac_range2 a b : apply_ctor key_eq k_range [VInt a; VInt b] = Some (VRange a b 1). Proof. reflexivity. Qed.
+Lemma ac_range3 a b c : apply_ctor key_eq k_range [VInt a; VInt b; VInt c] = if Z.eqb c 0 then None else Some (VRange a b c).
+Proof. reflexivity. Qed.
+Lemma ac_slice1 b : apply_ctor key_eq k_slice [b] = Some (VNode VkSlice [VNone; b; VNone]). Proof. reflexivity. Qed.
+Lemma ac_slice2 a b : apply_ctor key_eq k_slice [a; b] = Some (VNode VkSlice [a; b; VNone]). Proof. reflexivity. Qed.
+Lemma ac_slice3 a b c : apply_ctor key_eq k_slice [a; b; c] = Some (VNode VkSlice [a; b; c]). Proof. reflexivity. Qed.
+Lemma ac_deque l : apply_ctor key_eq n_deque [VNode VkList l] = Some (VNode VkDeque l). Proof. reflexivity. Qed.
+Lemma ac_frozenset l : apply_ctor key_eq k_frozenset [VNode VkSet l] = Some (VNode VkFrozenset l). Proof. reflexivity. Qed.
+Lemma ac_bytearray b : apply_ctor key_eq k_bytearray [VBytes b] = Some (VBytearray b). Proof. reflexivity. Qed.
+Lemma ac_Counter l : apply_ctor key_eq n_Counter [VNode VkDict l] = Some (VNode VkCounter l). Proof. reflexivity. Qed.
+Lemma ac_defaultdict l : apply_ctor key_eq n_defaultdict [VNone; VNode VkDict l] = Some (VNode (VkDefaultdict None) l).
+Proof. reflexivity. Qed.
+Lemma ac_OrderedDict l : apply_ctor key_eq n_OrderedDict [VNode VkList l] =
+  match all_some_v (map tuple_pair l) with Some kvs => Some (VNode VkOrderedDict (dict_of key_eq kvs)) | None => None end.
+Proof. reflexivity. Qed.
+Lemma ac_ChainMap args : apply_ctor key_eq n_ChainMap args =
+  if forallb is_mapping args then Some (VNode VkChainMap (match args with [] => [VNode VkDict []] | _ => args end)) else None.
+Proof. reflexivity. Qed.
+
+Lemma tuple_pairs_back kvs :
+  all_some_v (map tuple_pair (map (fun kv : value * value => VNode VkTuple [fst kv; snd kv]) kvs)) = Some kvs.
+Proof. induction kvs as [|[k v] l IH]; [reflexivity|]. cbn [map tuple_pair all_some_v fst snd]. rewrite IH. reflexivity. Qed.
+
+Lemma ev_tuples : forall vs, all_some_v (map ev (map vmodel vs)) = Some vs ->
+  all_some_v (map ev (map (fun kv => MNode KTuple [fst kv; snd kv]) (pairs_of (map vmodel vs))))
+  = Some (map (fun kv => VNode VkTuple [fst kv; snd kv]) (pairs_of vs)).
+Proof.
+  fix IH 1. intros [|a [|b l]] H; [reflexivity|reflexivity|].
+  cbn [map all_some_v] in H.
+  destruct (ev (vmodel a)) as [a'|] eqn:Ea; [|discriminate].
+  destruct (ev (vmodel b)) as [b'|] eqn:Eb; [|discriminate].
+  destruct (all_some_v (map ev (map vmodel l))) as [l'|] eqn:El; [|discriminate].
+  injection H as -> -> ->.
+  cbn [map pairs_of fst snd]. rewrite (IH l El).
+  cbn [all_some_v eval map]. rewrite Ea, Eb. reflexivity.
+Qed.
+
+Lemma no_kw_models vs : forallb (fun v => negb (is_vkw v)) vs = true -> existsb is_mkw (map vmodel vs) = false.
+Proof.
+  induction vs as [|v vs IH]; intros H; [reflexivity|]. cbn [forallb] in H. apply andb_prop in H as [Hv H].
+  cbn [map existsb]. rewrite IH by exact H. apply negb_true_iff in Hv. pose proof (vmodel_not_kw v Hv) as Hk.
+  unfold is_mkw. destruct (vmodel v); try reflexivity. discriminate.
+Qed.
+
+Lemma mapping_not_kw vs : forallb is_mapping vs = true -> existsb is_mkw (map vmodel vs) = false.
+Proof.
+  induction vs as [|v vs IH]; intros H; [reflexivity|]. cbn [forallb] in H. apply andb_prop in H as [Hv H].
+  cbn [map existsb]. rewrite IH by exact H.
+  destruct v as [| | | | | | | | | | |k l]; try discriminate. destruct k; try discriminate; reflexivity.
+Qed.
+
+Theorem eval_vmodel : forall v, wfv v -> ev (vmodel v) = Some v.
+Proof.
+  apply (value_ind' (fun v => wfv v -> ev (vmodel v) = Some v)); [intros v|intros k vs IH].
+  { destruct v as [|b|z|f|a b|s|b|b|s|n d|a b c|k vs]; try exact I; intros Hwf; inversion Hwf; subst; try reflexivity.
+    - destruct b; reflexivity.
+    - cbn [vmodel]. rewrite ev_call. cbn [existsb is_mkw map eval all_some_v orb]. rewrite ac_Fraction.
+      replace (Z.eqb d 0) with false by (symmetry; apply Z.eqb_neq; lia).
+      replace (Z.ltb d 0) with false by (symmetry; apply Z.ltb_ge; lia).
+      match goal with H : Z.gcd n d = 1%Z |- _ => rewrite H end.
+      rewrite !Z.div_1_r, !Z.mul_1_l. reflexivity.
+    - cbn [vmodel]. destruct (Z.eqb c 1) eqn:E1; [destruct (Z.eqb a 0) eqn:E2|]; rewrite ev_call;
+        cbn [existsb is_mkw map eval all_some_v orb].
+      + apply Z.eqb_eq in E1, E2. subst. apply ac_range1.
+      + apply Z.eqb_eq in E1. subst. apply ac_range2.
+      + rewrite ac_range3. replace (Z.eqb c 0) with false by (symmetry; apply Z.eqb_neq; assumption). reflexivity. }
+  intros Hwf. inversion Hwf as [| | | | | | | | | | |k' vs' Hshape HF]; subst.
+  pose proof (all_some_map vs IH HF) as Hev.
+  cbn [vmodel]. destruct k as [| | | | | | | |f| |].
+  - cbn [eval]. rewrite Hev. reflexivity.
+  - cbn [eval]. rewrite Hev. reflexivity.
+  - cbn [eval]. rewrite Hev. cbn [shape_ok] in Hshape. rewrite set_of_distinct by exact Hshape. reflexivity.
+  - rewrite ev_call. cbn [existsb is_mkw map eval all_some_v orb]. rewrite Hev. cbn [shape_ok] in Hshape.
+    rewrite set_of_distinct by exact Hshape. apply ac_frozenset.
+  - rewrite ev_call. cbn [existsb is_mkw map eval all_some_v orb]. rewrite Hev. apply ac_deque.
+  - destruct Hshape as [He Hd]. cbn [eval]. rewrite Hev, He. rewrite dict_of_pairs by assumption. reflexivity.
+  - destruct Hshape as [He Hd]. rewrite ev_call. cbn [existsb is_mkw orb map].
+    change (ev (MNode KList ?l)) with (match all_some_v (map ev l) with Some vs0 => Some (VNode VkList vs0) | None => None end).
+    rewrite (ev_tuples vs Hev). cbn [all_some_v]. rewrite ac_OrderedDict, tuple_pairs_back.
+    rewrite dict_of_pairs by assumption. reflexivity.
+  - destruct Hshape as [He Hd]. rewrite ev_call. cbn [existsb is_mkw map eval all_some_v orb]. rewrite Hev, He.
+    rewrite dict_of_pairs by assumption. apply ac_Counter.
+  - destruct f as [f|]; [destruct Hshape|]. destruct Hshape as [He Hd]. rewrite ev_call.
+    cbn [existsb is_mkw map eval all_some_v orb factory_repr]. rewrite Hev, He.
+    rewrite dict_of_pairs by assumption. apply ac_defaultdict.
+  - destruct Hshape as [Hne Hm]. rewrite ev_call. rewrite (mapping_not_kw vs Hm), Hev, ac_ChainMap, Hm.
+    destruct vs; [congruence|reflexivity].
+  - destruct Hshape as [Hlen Hk]. pose proof (no_kw_models vs Hk) as Hnk.
+    destruct vs as [|a [|b [|c [|x vs]]]]; try discriminate. cbn [map nth] in *.
+    destruct (ev (vmodel a)) as [a'|] eqn:Ea; [|discriminate].
+    destruct (ev (vmodel b)) as [b'|] eqn:Eb; [|discriminate].
+    destruct (ev (vmodel c)) as [c'|] eqn:Ec; [|discriminate].
+    cbn [all_some_v] in Hev. injection Hev as -> -> ->.
+    cbn [existsb] in Hnk. apply orb_false_elim in Hnk as [Ka Hnk]. apply orb_false_elim in Hnk as [Kb Hnk].
+    apply orb_false_elim in Hnk as [Kc _].
+    destruct (is_none c) eqn:Nc; [destruct (is_none a) eqn:Na|]; rewrite ev_call; cbn [existsb map all_some_v];
+      rewrite ?Ka, ?Kb, ?Kc, ?Ea, ?Eb, ?Ec; cbn [orb].
+    + destruct a; try discriminate. destruct c; try discriminate. apply ac_slice1.
+    + destruct c; try discriminate. apply ac_slice2.
+    + apply ac_slice3.
+Qed.
+
+(* C27, the round trip: the printed text is read as a form that evaluates to the value *)
+Theorem value_roundtrip : forall v, wfv v ->
+  exists m, reads W RdOne (vrepr W v) (ROne m []) /\ ev m = Some v.
+Proof.
+  intros v Hwf. exists (vmodel v). split; [|apply eval_vmodel; exact Hwf].
+  rewrite vrepr_vmodel by exact Hwf. apply read_back; [exact NF|apply vmodel_ok; exact Hwf].
 Qed.
 
 End VP.
